@@ -158,7 +158,13 @@ def traceAction (env : Env) (idx : Nat) (a : Action) (rs : RunState) : RunState 
   let (api, tokens) := match res with
     | .ok (r, t) => (r, t)
     | .error p => ("panic " ++ panicClass p, rs.tokens)
-  let evs := s1.log.reverse.map fun e => s!"{idx} ev {e.render}"
+  -- which node a new observer watches (needed to follow observers on nodes named through shared cells)
+  let obsNote : List String := match a, res with
+    | .observe _, .ok _ => match s1.observers.back? with
+      | some ob => [s!"{idx} ev note observe o{s1.observers.size - 1} n{ob.node}"]
+      | none => []
+    | _, _ => []
+  let evs := (s1.log.reverse.map fun e => s!"{idx} ev {e.render}") ++ obsNote
   let reads := joinWith " " ((List.range s1.observers.size).map fun o =>
     if (s1.observers[o]?.map (·.clones)).getD 0 == 0 || !s1.alive then s!"o{o}=gone"
     else s!"o{o}={renderRead (s1.tryGetValue env o)}")
